@@ -15,7 +15,7 @@ import z3
 
 from . import drv, vals, solve, mpc_common as mc, check_c01
 from .cctypes import T
-from .common import Check, pool_map
+from .common import Check, pool_map, safe_analyze
 from .interp import Interp, Unsupported, flat_elems, Arr
 from .prog import single_graph
 from .validate import op_name
@@ -76,6 +76,7 @@ def symbols_of(terms):
     return out
 
 
+@safe_analyze(lambda a: dict(id=a[0]["id"], status=None, observers=[], note="", cex=None))
 def analyze(args):
     case, res, timeout_s = args
     out = dict(id=case["id"], status=None, observers=[], note="", cex=None)
